@@ -24,4 +24,6 @@ CONTROLS += [
     dict(name="exmod_single_folder called without passing dry_run on",
          edits=[(E, "        no_word_wrap=no_word_wrap,\n        dry_run=dry_run,\n        module_root=module_root,", "        no_word_wrap=no_word_wrap,\n        dry_run=False,\n        module_root=module_root,")],
          expect=r"dry_run-frame/"),
+    dict(name="BENIGN: exmod reports the directory it would create under --dry-run as well as creating it otherwise (same guard)", benign=True,
+         edits=[("cdd/compound/exmod.py", "    elif not path.isdir(output_directory):\n        makedirs(output_directory)\n", "    elif not path.isdir(output_directory):\n        print(\"creating\", output_directory)\n        makedirs(output_directory)\n")]),
 ]
